@@ -10,10 +10,6 @@ theorem emit_eq (x : Ctx) (rest : List (Bool × Str)) : emit x rest = emitQ x.qu
   unfold emit emitQ result
   split <;> simp_all
 
-/-- a character allowed in an unquoted word: outside the quoting syntax, or a
-backslash (which is literal when no quote follows its run) -/
-def wordChar (sq : Bool) (c : Char) : Bool := plain sq c || c = '\\'
-
 /-- what follows a word: the end, or a whitespace character -/
 def Boundary (rest : Str) : Prop := rest = [] ∨ ∃ c more, rest = c :: more ∧ isWs c = true
 
